@@ -330,8 +330,9 @@ pub fn find_location<T: PartialEq<U>, U>(tokens: &[Rc<T>], rule_tokens: &[Rc<U>]
             target_token_index += 1;
         }
         else {
+            /* Restart one token behind the previous start, a partial match may overlap the next candidate */
             rule_token_index    = 0;
-            target_token_index += 1;
+            target_token_index  = start_token_index + 1;
             start_token_index   = target_token_index;
         }
 
